@@ -143,12 +143,34 @@ def materialise(wd, d):
     # never empty: whatshap refuses a BAM without reads, "no read support" must still be expressible
     ref0 = seqs[0][0]
     reads.append({"name": "dummy0", "flag": 0, "ref": 0, "pos": 2, "cigar": "20M", "seq": ref0[2:22], "rg": "rg_" + samples[0]})
+    bam2 = None
+    if wd.get("two_bams"):
+        # the reads are spread over two alignment files whose read-name spaces COLLIDE (a name identifies a fragment
+        # only within its file): every read of the second file takes over the name of a read of the first file
+        rng2 = random.Random(wd["seed"] + 5)
+        names1 = [r["name"] for r in reads if r["name"] != "dummy0"]
+        # a FRAGMENT (both mates) goes to one file: a lone mate ending on an insertion anchor is not an error-free copy
+        to2 = {nm for nm in sorted(set(names1)) if rng2.random() < 0.45}
+        second = [r for r in reads if r["name"] in to2]
+        ids2 = {id(r) for r in second}
+        reads = [r for r in reads if id(r) not in ids2]
+        orig2 = {r["name"] for r in second}
+        free = sorted({r["name"] for r in reads if r["name"] != "dummy0"} - orig2)
+        ren = {}
+        for r in second:                      # distinct fragments keep distinct names WITHIN the second file
+            if r["name"] not in ren:
+                ren[r["name"]] = free.pop() if free else r["name"]
+        for r in second:
+            r["name"] = ren[r["name"]]
+        if second:
+            bam2 = W.write_bam(os.path.join(d, "reads2.bam"), [(n_, len(s[0])) for n_, s in zip(names, seqs)], second,
+                               [{"ID": "rg_" + s, "SM": s} for s in samples])
     bam = W.write_bam(os.path.join(d, "reads.bam"), [(n_, len(s[0])) for n_, s in zip(names, seqs)], reads,
                       [{"ID": "rg_" + s, "SM": s} for s in samples])
     ped = None
     if wd.get("ped"):
         ped = W.write_ped(os.path.join(d, "fam.ped"), wd["ped"])
-    return {"vcf": vcf, "bam": bam, "ref": os.path.join(d, "ref.fa"), "ped": ped, "seqs": seqs, "names": names}
+    return {"vcf": vcf, "bam": bam, "bam2": bam2, "ref": os.path.join(d, "ref.fa"), "ped": ped, "seqs": seqs, "names": names}
 
 
 def run_phase(wd, d, paths, vcf_in=None, out_name="out.vcf", phase_inputs=None, tag=None):
@@ -160,13 +182,24 @@ def run_phase(wd, d, paths, vcf_in=None, out_name="out.vcf", phase_inputs=None, 
         os.remove(trace)
     lists = o.get("lists", {})
     lp = {k: os.path.join(d, f"{out_name}.{k}.tsv") for k in ("read", "gt", "recomb") if lists.get(k)}
+    if wd.get("stale_lists"):
+        # HISTORY: the list paths already hold the lists of an earlier run in the same directory; this run must replace them
+        smp, chrom = wd["samples"][0], wd["chroms"][0]["name"]
+        stale = {"read": f"#readname\tsource_id\tsample\tphaseset\thaplotype\tcovered_variants\tfirst_variant_pos\tlast_variant_pos\n"
+                         f"rd99999\t0\t{smp}\t3\t0\t2\t3\t9\n",
+                 "gt": f"#sample\tchromosome\tposition\tREF\tALT\told_gt\tnew_gt\n{smp}\t{chrom}\t7\tA\tC\t0/1\t1/1\n",
+                 "recomb": f"#child_id\tchromosome\tposition1\tposition2\ttransmitted_hap_father1\ttransmitted_hap_father2\t"
+                           f"transmitted_hap_mother1\ttransmitted_hap_mother2\trecombination_cost\n{smp}\t{chrom}\t3\t9\t0\t1\t0\t0\t5\n"}
+        for k, pth in lp.items():
+            with open(pth, "w") as fh:
+                fh.write(stale[k])
     os.environ["WHATSHAP_VERIF_TRACE"] = trace
     import logging
     logging.disable(logging.ERROR)
     exc = ""
     try:
         run_whatshap(
-            phase_input_files=phase_inputs or [paths["bam"]],
+            phase_input_files=phase_inputs or ([paths["bam"]] + ([paths["bam2"]] if paths.get("bam2") else [])),
             variant_file=vcf_in or paths["vcf"],
             reference=paths["ref"] if o.get("reference", True) else False,
             output=os.path.join(d, out_name),
